@@ -99,14 +99,23 @@ IsSample(p, n, take) == /\ Len(p) = Min(take, n)
 IntLab  == <<2, 1, 3>>
 HalfLab == <<3, 0, 4>>               \* 1.5, 0.0, 2.0
 Str2Lab == <<"10", "9", "ab">>       \* labels of more than one character
+(* "exactly the distinct labels of the data": a label is the value AS IT IS.  Strings that a clean-up   *)
+(* might "normalise" are different labels: differing only by a leading / trailing blank, by case, or    *)
+(* being empty.  (A digit string next to the equal number is a mixed-type label set: outside, see below.) *)
+StrbLab == <<"a", "a ", " a">>       \* differ only by blanks
+StreLab == <<"A", "a", "">>          \* differ only by case; the empty string
+StrCLab == <<"A", "a", "aA">>        \* what the LibSVM / Manik grammar allows (labels are blank- and comma-separated tokens)
 Lab(lk, l) == CASE lk = "int"  -> I(IntLab[l])
                 [] lk = "half" -> H(HalfLab[l])
                 [] lk = "str"  -> S(Levels[l])
                 [] lk = "str2" -> S(Str2Lab[l])
+                [] lk = "strb" -> S(StrbLab[l])
+                [] lk = "stre" -> S(StreLab[l])
+                [] lk = "strC" -> S(StrCLab[l])
                 [] lk = "cat"  -> Cat(Levels[l])
                 [] lk = "lst"  -> L(<<I(IntLab[l])>>)
-IsMulti(lk)  == lk \in {"mint", "mstr", "mstr2"}
-ElemKind(lk) == CASE lk = "mint" -> "int" [] lk = "mstr" -> "str" [] lk = "mstr2" -> "str2" [] OTHER -> lk
+IsMulti(lk)  == lk \in {"mint", "mstr", "mstr2", "mstrb", "mstrC"}
+ElemKind(lk) == CASE lk = "mint" -> "int" [] lk = "mstr" -> "str" [] lk = "mstr2" -> "str2" [] lk = "mstrb" -> "strb" [] lk = "mstrC" -> "strC" [] OTHER -> lk
 (* label sets are lists without repetition, not necessarily ordered *)
 MSeqs == {<<1>>, <<2>>, <<2, 1>>, <<3>>, <<1, 3>>, <<3, 2>>, <<1, 2, 3>>}
 LabelVal(lk, ch) == IF IsMulti(lk) THEN L([k \in DOMAIN ch |-> Lab(ElemKind(lk), ch[k])]) ELSE Lab(lk, ch)
@@ -162,7 +171,11 @@ SparseRow(c, i) ==
   IN  SparseV(P(before) \o <<<<LKey(c), Y(c, i)>>>> \o P(after))
 Row(c, i) == IF c.src = "sparse" THEN SparseRow(c, i) ELSE DenseV(InsertAt(X(c, i).v, c.pos, Y(c, i)))
 (* text: a canonical writer (no quoting, no blanks; the file syntax itself is C12's subject) *)
-DenseLine(c, i) == Join([k \in 1..c.nf + 1 |-> Txt(Row(c, i).v[k])], ",")
+(* a field that is empty or begins / ends with a blank is written quoted, as the grammars require (RFC 4180 *)
+(* double quotes for CSV, single quotes for an ARFF string value); nothing else is ever quoted             *)
+NeedsQuote(v) == v.t = "str" /\ v.v \in {"a ", " a", ""}
+FieldTxt(c, v) == IF ~NeedsQuote(v) THEN Txt(v) ELSE IF c.src = "arff" THEN "'" \o v.v \o "'" ELSE "\"" \o v.v \o "\""
+DenseLine(c, i) == Join([k \in 1..c.nf + 1 |-> FieldTxt(c, Row(c, i).v[k])], ",")
 ArffType(c) == CASE c.lk = "cat" -> "{" \o Join(Levels, ",") \o "}" [] c.lk = "half" -> "numeric" [] OTHER -> "string"
 ArffHead(c) == <<"@relation r">> \o [k \in 1..c.nf + 1 |-> "@attribute " \o Names(c)[k] \o " " \o (IF k - 1 = c.pos THEN ArffType(c) ELSE "numeric")] \o <<"@data">>
 (* a sparse ARFF line lists "column value" for the stored columns in column order; a zero label is not stored *)
@@ -209,12 +222,12 @@ vars == <<case, perm, go>>
 (* (unorderable in Python), nominal labels in sparse ARFF (the reader adds a level "0" by design).        *)
 Combos(src) ==
   CASE src = "xy" -> ({"int", "half"} \X {"c", "r", "none"})
-                     \cup ({"str", "str2", "cat", "lst"} \X {"c", "none"}) \cup ({"mint", "mstr", "mstr2"} \X {"m"})
-    [] src \in {"rows", "rowsH", "sparse"} -> ({"int", "half"} \X {"c", "r", "none"}) \cup ({"str", "str2", "cat"} \X {"c", "none"})
-    [] src \in {"csv", "csvH"} -> {"str", "str2"} \X {"c", "none"}
-    [] src = "arff"  -> ({"half"} \X {"c", "r", "none"}) \cup ({"str", "str2", "cat"} \X {"c", "none"})
+                     \cup ({"str", "str2", "strb", "stre", "cat", "lst"} \X {"c", "none"}) \cup ({"mint", "mstr", "mstr2", "mstrb"} \X {"m"})
+    [] src \in {"rows", "rowsH", "sparse"} -> ({"int", "half"} \X {"c", "r", "none"}) \cup ({"str", "cat"} \X {"c", "none"}) \cup {<<"strb", "c">>, <<"stre", "none">>}
+    [] src \in {"csv", "csvH"} -> ({"str", "str2"} \X {"c", "none"}) \cup {<<"strb", "none">>, <<"stre", "c">>}
+    [] src = "arff"  -> ({"half"} \X {"c", "r", "none"}) \cup ({"str", "str2", "cat"} \X {"c", "none"}) \cup {<<"strb", "c">>, <<"stre", "none">>}
     [] src = "arffS" -> {"half"} \X {"c", "r", "none"}
-    [] src \in {"libsvm", "manik"} -> ({"str", "str2"} \X {"c", "none"}) \cup ({"mstr", "mstr2"} \X {"m"})
+    [] src \in {"libsvm", "manik"} -> ({"str", "str2", "strC"} \X {"c", "none"}) \cup ({"mstr", "mstr2", "mstrC"} \X {"m"})
 Bys(src) == CASE Pairs(src) -> {"none"} [] src \in {"rows", "csv"} -> {"index"} [] OTHER -> {"index", "name"}
 ShapesOf(src) == CASE src = "xy" -> {<<0, 0>>} [] src \in {"libsvm", "manik"} -> {sh \in Shapes : sh[2] = 0} [] OTHER -> Shapes
 TakesOf(src) == IF src = "xy" THEN {-1} ELSE Takes
